@@ -78,5 +78,8 @@ func getIndices(node *CandidateNode) *CandidateNode {
 		}
 	}
 
-	return &CandidateNode{Kind: SequenceNode, Tag: "!!seq", Content: contents}
+	// the indices are elements of the list they are returned in (parent and position set)
+	indices := &CandidateNode{Kind: SequenceNode, Tag: "!!seq"}
+	indices.AddChildren(contents)
+	return indices
 }
